@@ -43,8 +43,9 @@ type Line struct {
 	Taint []string `json:"taint"`
 }
 
-// Finding signatures (see known_findings.d/c05.jsonl; sigAlias and sigNonCanon
-// are fixed in the repository since a51bcc8de and kept as regression signatures).
+// Finding signatures (see known_findings.d/c05.jsonl).  All four are fixed in
+// the repository (a51bcc8de, e3c8e5c33, a432f329d) and kept as regression
+// signatures: a recurrence is a VIOLATION.
 const (
 	sigAlias    = "typevalue-aliases-caller-bytes:LookupByValue"
 	sigRace     = "decode-typedef-race:concurrent-namedef"
